@@ -82,6 +82,7 @@ type sCorpus struct {
 	Batches  [][]sOp
 	Live     map[int]*sVersion // id -> live version after all batches (the abstract index)
 	Vocab    []string
+	Extra    []*sxGq // queries made for this corpus (run in every mode and as scripts)
 }
 
 func (v *sVersion) blugeDoc() *bluge.Document {
@@ -1628,6 +1629,13 @@ func runSearch(o Opts) error {
 	if err := r.mergedCorpora(nCorpora, nMerged, nQueries*4/7, nScripts/2); err != nil {
 		return err
 	}
+	nGeo := 2
+	if o.Thorough() {
+		nGeo = 12
+	}
+	if err := r.geoEdgeCorpora(nCorpora+nMerged, nGeo, nQueries/7, nScripts/4); err != nil {
+		return err
+	}
 	if o.Thorough() {
 		if err := r.exhaustive(); err != nil {
 			return err
@@ -1651,6 +1659,95 @@ func (r *sxSearchRun) openMem(c *sCorpus) (*bluge.Writer, *bluge.Reader, bluge.C
 		return nil, nil, cfg, err
 	}
 	return w, rd, cfg, nil
+}
+
+// ---------------------------------------------------------------- geo points in boundary cells
+//
+// A geo box / distance query is a disjunction over cell terms plus a FilteringSearcher that
+// re-checks the points of the cells crossing the edge (14 bits per dimension: cells of
+// 360/16384 degrees of longitude).  The filter only has work when a point lies OUTSIDE the
+// shape but inside such a boundary cell: these corpora put several consecutive documents
+// there (outside the oracle's edge band of relative 1e-3, which is narrower than a cell at
+// longitude 10), next to documents inside, all sharing words so that the geo clause is driven
+// with Advance by sibling clauses.
+func sxGenGeoEdgeCorpus(rng *rand.Rand) *sCorpus {
+	c := &sCorpus{Live: map[int]*sVersion{}, Vocab: []string{"ab", "ba", "cab"}}
+	const cell = 360.0 / 16384
+	kW := math.Floor((sGeoLon - 0.3 + 180) / cell)
+	west := -180 + kW*cell + 0.9*cell // the cell of the edge reaches 0.9 cell widths to the west of it
+	kE := math.Floor((sGeoLon + 0.3 + 180) / cell)
+	east := -180 + kE*cell + 0.1*cell
+	type pt struct{ lon, lat float64 }
+	var pts []pt
+	lats := []float64{49.7, 49.8, 49.9, 50.0, 50.1, 50.2, 50.3}
+	nOut := 3 + rng.Intn(4)
+	for i := 0; i < nOut; i++ {
+		d := (0.56 + 0.3*rng.Float64()) * cell
+		lat := lats[rng.Intn(len(lats))]
+		if rng.Intn(2) == 0 {
+			pts = append(pts, pt{west - d, lat})
+		} else {
+			pts = append(pts, pt{east + d, lat})
+		}
+	}
+	// the same for a circle: inside its bounding box, outside the circle (beyond the 0.4 % band)
+	cx, cy, radius := sGeoLon+2.0, sGeoLat, 30.0
+	for i := 0; i < 2+rng.Intn(2); i++ {
+		pts = append(pts, pt{cx + 0.33 + 0.02*rng.Float64(), cy + 0.19 + 0.02*rng.Float64()})
+	}
+	// documents of one run are consecutive: a few inside first or last
+	inside := []pt{{west + 0.1, 49.9}, {sGeoLon, 50.1}, {east - 0.1, 50.2}, {cx + 0.05, cy + 0.05}, {cx - 0.1, cy}}
+	order := make([]pt, 0, len(pts)+len(inside))
+	cut := rng.Intn(len(inside) + 1)
+	order = append(order, inside[:cut]...)
+	order = append(order, pts...)
+	order = append(order, inside[cut:]...)
+	var ops []sOp
+	for i, p := range order {
+		words := []string{"ab"}
+		if rng.Intn(4) == 0 {
+			words = []string{"ba"}
+		}
+		if rng.Intn(2) == 0 {
+			words = append(words, c.Vocab[rng.Intn(3)])
+		}
+		sv := &sVersion{V: i, ID: i + 1, HasText: true, Text: strings.Join(words, " "), HasGeo: true, Lon: p.lon, Lat: p.lat}
+		sv.analyse()
+		c.Versions = append(c.Versions, sv)
+		ops = append(ops, sOp{Kind: 0, V: sv, ID: sv.ID})
+		c.Live[sv.ID] = sv
+	}
+	if rng.Intn(2) == 0 {
+		k := 1 + rng.Intn(len(ops)-1)
+		c.Batches = [][]sOp{ops[:k], ops[k:]}
+	} else {
+		c.Batches = [][]sOp{ops}
+	}
+	box := &sxGq{Kind: sxQGeoBox, F: sxFG, TLLon: west, TLLat: 50.5, BRLon: east, BRLat: 49.5}
+	circle := &sxGq{Kind: sxQGeoDist, F: sxFG, CLon: cx, CLat: cy, DistKm: radius}
+	t := func(w string) *sxGq { return &sxGq{Kind: sxQTerm, F: sxFT, Term: w} }
+	for _, g := range []*sxGq{box, circle} {
+		c.Extra = append(c.Extra,
+			g,
+			&sxGq{Kind: sxQBool, Must: []*sxGq{t("ab"), g}},
+			&sxGq{Kind: sxQBool, Must: []*sxGq{g, t("ab")}},
+			&sxGq{Kind: sxQBool, Must: []*sxGq{t("ab")}, Should: []*sxGq{g, t("cab")}, MinShould: 1},
+			&sxGq{Kind: sxQBool, Must: []*sxGq{t("ab")}, MustNot: []*sxGq{g}},
+			&sxGq{Kind: sxQBool, Should: []*sxGq{g, t("ba")}, MinShould: 2},
+		)
+	}
+	return c
+}
+
+func (r *sxSearchRun) geoEdgeCorpora(ci0, n, nQueries, nScripts int) error {
+	for k := 0; k < n; k++ {
+		c := sxGenGeoEdgeCorpus(r.rng)
+		if err := r.corpus(ci0+k, c, nQueries, nScripts); err != nil {
+			return err
+		}
+		r.w.Count("geo_edge_corpora", 1)
+	}
+	return nil
 }
 
 // ---------------------------------------------------------------- layouts produced by a merge
@@ -2043,7 +2140,7 @@ func (r *sxSearchRun) corpusOn(ci int, how string, c *sCorpus, rd *bluge.Reader,
 	var items, itemMeta []string
 	nontrivial := false
 	live := c.liveIDs()
-	targeted := sxTargetedQueries(c)
+	targeted := append(sxTargetedQueries(c), c.Extra...)
 	for qi := 0; qi < nQueries+len(targeted); qi++ {
 		var q *sxGq
 		if qi < nQueries {
@@ -2259,10 +2356,28 @@ func (r *sxSearchRun) scripts(rdr *bluge.Reader, ci int, c *sCorpus, lay *sxALay
 		return nil, nil, nil
 	}
 	w := r.w
-	for si := 0; si < nScripts; si++ {
-		q := sxGenQuery(r.rng, c, 1+r.rng.Intn(4))
-		if rc, rb := sxRangeCost(q); rb || rc > 1500 || q.hasKind(sxQGeoBox) || q.hasKind(sxQGeoDist) || sxFuzzyTranspositionSensitive(q, c) {
+	for si := 0; si < nScripts+len(c.Extra); si++ {
+		var q *sxGq
+		if si < len(c.Extra) {
+			q = c.Extra[si]
+		} else {
+			q = sxGenQuery(r.rng, c, 1+r.rng.Intn(4))
+		}
+		if rc, rb := sxRangeCost(q); rb || rc > 1500 || sxFuzzyTranspositionSensitive(q, c) {
 			continue
+		}
+		if q.hasKind(sxQGeoBox) || q.hasKind(sxQGeoDist) {
+			// a geo leaf (FilteringSearcher over the cell terms) is scripted when no document lies in an edge band
+			unsure := false
+			for _, v := range lay.NumToV {
+				if q.geoUncertain(v) {
+					unsure = true
+				}
+			}
+			if unsure {
+				continue
+			}
+			w.Count("script_geo", 1)
 		}
 		// the matching numbers according to the oracle
 		var S []int64
